@@ -10,7 +10,9 @@ use std::io::{BufRead, Write};
 static GLOBAL: alloc::Counting = alloc::Counting;
 
 fn main() {
-    std::panic::set_hook(Box::new(|_| {}));
+    if std::env::var("PDS_HARNESS_PANICS").is_err() {
+        std::panic::set_hook(Box::new(|_| {}));
+    }
     let args: Vec<String> = std::env::args().collect();
     if args.len() < 2 {
         eprintln!("usage: pds-harness replay <ops> | gen <prop> <tier> <seed> <outdir>");
